@@ -127,12 +127,12 @@ Proof. intros bs s f i H. rewrite apply_batches_spec in H. apply andb_true_iff i
 (* deletes of the loop over blocks [n, j) of a sweep ending at e *)
 Definition flat_kills (f : fam) (i n e j : N) : bool :=
   match f with
-  | H2n => (n <=? i) && (i <? j) && negb (i =? sub64 e 1)
+  | H2n => (n <=? i + 1) && (i + 1 <? j)
   | Txl | L1l | Hist => (n <=? i) && (i <? j)
   | _ => false
   end.
 Definition init_kills (f : fam) (i o : N) : bool :=
-  match f with H2n => (0 <? o) && (i =? o - 1) | _ => false end.
+  false.
 Definition range_kills (f : fam) (i k : N) : bool :=
   match f with
   | Hdr => i <? k - LAG
@@ -145,7 +145,7 @@ Lemma killed_block_ops : forall f i e n,
   killed f i (block_ops e n) = flat_kills f i n e (n + 1).
 Proof.
   intros. unfold block_ops, killed, flat_kills.
-  destruct (N.eqb_spec n (sub64 e 1)) as [E|E]; destruct f; simpl; lia.
+  destruct (N.ltb_spec 0 n) as [E|E]; destruct f; simpl; lia.
 Qed.
 
 Lemma flat_kills_step : forall f i n e j, n < j ->
@@ -167,8 +167,7 @@ Qed.
 
 Lemma killed_init_ops : forall f i o, killed f i (init_ops o) = init_kills f i o.
 Proof.
-  intros. unfold init_ops, init_kills, killed.
-  destruct (N.ltb_spec 0 o); destruct f; simpl; try reflexivity; lia.
+  intros. reflexivity.
 Qed.
 
 Lemma killed_range_ops : forall f i k, killed f i (range_ops k) = range_kills f i k.
